@@ -126,6 +126,8 @@ def arbiter(g):
     b.loops = False
     b.defines = dict(g.defines)
     b.defines['VERIF_BOUND'] = getattr(g, 'arb_bound', 0) or 4
+    for k_, v_ in (getattr(g, 'arb_defines', None) or {}).items():
+        b.defines[k_] = v_
     b.unwind = max(g.unwind or 0, 7, getattr(g, 'arb_unwind', 0) or 0)
     b.timeout = min(g.timeout, 600)
     return b
